@@ -31,10 +31,10 @@ type scope struct {
 	vars       map[string]*variable
 	plpgsql    bool
 	queryLevel bool
-	grouped    bool                // aggregate query without GROUP BY: plain column references are invalid
-	aggs       map[*FuncCall]Value // aggregate results of this query level
-	rowNumber  int64               // row_number() OVER () of the current row
-	groupKeys  map[string]Value    // GROUP BY: canonical expression -> value for the current group
+	grouped    bool                  // aggregate query without GROUP BY: plain column references are invalid
+	aggs       map[*FuncCall]Value   // aggregate results of this query level
+	rowNumber  int64                 // row_number() OVER () of the current row
+	groupKeys  map[string]Value      // GROUP BY: canonical expression -> value for the current group
 	ctes       map[string]*resultSet // WITH queries visible from here
 }
 
